@@ -202,6 +202,12 @@ V("v_write_cel", "compose", "AsepriteFile::write_cel under R-pre (what validatio
   ["file::AsepriteFile::write_cel", "layer::Layer::data", "layer::Layer::blend_mode", "layer::Layer::opacity", "layer::Layer::layer_type", "file::AsepriteFile::tilesets", "cel::CelsData::cel"], fn="write_cel", witness="x_usable_after_load")
 V("v_layer_image", "compose", "AsepriteFile::layer_image(cel id) (== Cel::image): sprite-sized canvas showing exactly that cel over transparent black, blank if the slot is empty; the same write_cel as frame compositing (C19)",
   ["file::AsepriteFile::layer_image"], fn="layer_image", witness="x_routes")
+V("v_celsdata_validate", "validate", "CelsData::validate (validation stage, real text incl. its closure and four loops; unbounded frames / layers / cels): Ok => same table shape; every stored cel sits in an existing layer, satisfies RawCel::validate's verdict, and a linked cel names an existing frame whose cel in the SAME layer exists and holds pixel data itself (so write_cel's 'links to empty cel' panic is unreachable); no index out of bounds / overflow in the link table (assumption: fewer than 2^32 layers)",
+  ["cel::CelsData::validate", "cel::CelsData::cel", "cel::CelContent::is_raw"], fn="CelsData::validate", witness="x_usable_after_load")
+V("v_rawcel_validate", "validate", "RawCel::validate: Ok => header and user data unchanged; raw pixels pass RawPixels::validate (same data; indexed pixels all in the palette); a tilemap cel is accepted only in a tilemap layer and only if EVERY tile id < tile count of that layer's tileset (0 if missing); a link only if the callback accepts (linked frame, this layer)",
+  ["cel::RawCel::validate", "cel::ImageContent::validate", "tilemap::TilemapData::max_tile_id", "tileset::Tileset::tile_count"], fn="RawCel::validate", witness="x_usable_after_load")
+V("v_imagecontent_validate", "validate", "ImageContent::validate: size unchanged, pixels per RawPixels::validate", ["cel::ImageContent::validate"], fn="ImageContent::validate")
+V("v_layersdata_validate", "validate", "LayersData::validate: Ok iff every tilemap layer references a tileset that exists (so write_cel's 'missing tileset' expect is unreachable)", ["layer::LayersData::validate"], fn="LayersData::validate", witness="x_usable_after_load")
 V("v_tilemap_tile", "tilemap", "TilemapData::tile(x,y) == Some(tiles[y*w+x]) iff x<w && y<h (given tiles.len()==w*h), for all u16 coordinates",
   ["tilemap::TilemapData::tile", "tilemap::TilemapData::width", "tilemap::TilemapData::height"], fn="tile", witness="x_tilemap_views")
 V("v_tile_slice", "tilemap", "tile_slice(pixels, size, id) == pixels[id*area .. (id+1)*area] under (id+1)*area <= len; no overflow", ["file::tile_slice"], fn="tile_slice", witness="x_tilemap_views")
@@ -337,7 +343,7 @@ prop("C03", "proof", BLEND_LEAVES + BLEND_WRAPPERS + ["k_parse_blend_mode", "x_m
 prop("C04", "proof", VDEC_IDS + ["v_compute_parents", "v_from_vec", "k_check_chunk_bytes", "k_scale_6bit", "k_parse_chunk_type", "k_parse_pixel_format"] + LAYER_DEC + TAGS_DEC + SLICE_DEC + PAL_DEC + EXT_DEC
      + TS_DEC + CEL_DEC + UD_DEC + CP_DEC + READER + ["k_tilemap_bits", "k_tile_parse", "k_cels_table", "v_read_aseprite", "v_parse_frame", "v_ud_set_tag_user_data", "v_ud_add_user_data", "v_ud_add_cel", "v_cel_mut", "x_decoder_contracts", "x_total_load"],
      "Totality contracts: every Kani decoder harness also discharges the automatic no-panic / no-overflow / in-bounds checks for all contents of its payload size; Verus proves compute_parents and that from_vec establishes its precondition. Whole-load totality (glue, zlib, stack depth, allocation) is fault enumeration in an isolated child process.", level_note_extra="fault enumeration for the composition")
-prop("C05", "proof", ["v_write_cel", "v_frame_image", "v_layer_image", "v_validate_indexed", "v_rawpixels_validate", "v_indexed_as_rgba", "v_dec_tilemap", "v_dec_tileset", "v_write_raw_cel", "v_write_tilemap_cel", "v_tile_slice", "v_tilemap_tile", "v_tilemap_lookup", "v_tile_offsets", "v_is_visible", "v_pixels_per_tile", "k_validate_indexed", "k_indexed_as_rgba", "k_tileset_head_34", "k_tileset_head_44", "x_usable_after_load"],
+prop("C05", "proof", ["v_celsdata_validate", "v_rawcel_validate", "v_imagecontent_validate", "v_layersdata_validate", "v_write_cel", "v_frame_image", "v_layer_image", "v_validate_indexed", "v_rawpixels_validate", "v_indexed_as_rgba", "v_dec_tilemap", "v_dec_tileset", "v_write_raw_cel", "v_write_tilemap_cel", "v_tile_slice", "v_tilemap_tile", "v_tilemap_lookup", "v_tile_offsets", "v_is_visible", "v_pixels_per_tile", "k_validate_indexed", "k_indexed_as_rgba", "k_tileset_head_34", "k_tileset_head_44", "x_usable_after_load"],
      "Assume/guarantee: the renderers are proved panic-free under explicit preconditions R-pre (Verus, unbounded); that validation establishes R-pre for everything that loads is checked by fault enumeration: every loadable corrupted file is driven through every accessor.")
 prop("C06", "proof", ["v_indexed_as_rgba", "v_gray_into_rgba", "v_is_background", "v_rawpixels_validate", "v_dec_cel", "v_dec_cel_content", "v_dec_cel_common", "v_dec_image_size", "v_pixel_count", "v_cel_is_empty", "v_cel_frame", "v_cel_layer", "v_celsdata_cel"] + PIX + ["k_cel_chunk_15", "k_cel_chunk_17", "k_cel_chunk_18", "k_cel_raw_rgba_28", "k_cel_raw_gray_24", "k_cel_raw_indexed_23", "v_write_raw_cel", "x_frames_vs_spec", "x_roundtrip_structure", "x_neutral_encodings"],
      "Pixel conversions proved for all values; cel header / raw payload decode on fixed sizes; placement + alpha scaling is the Verus rasteriser contract; zlib storage, linked cels and the transparent-index rule end-to-end are bounded-exec against the composition spec.")
